@@ -73,6 +73,8 @@ where
                         let mut seen_colon = false;
                         let mut seen_lambda = false;
                         while let Some(Ok((tok, _))) = self.underlying.peek() {
+                            #[cfg(rustpython_parser_verif)]
+                            crate::verif::step();
                             #[cfg(feature = "full-lexer")]
                             if matches!(tok, Tok::Comment { .. }) {
                                 continue;
@@ -120,6 +122,8 @@ where
                             ) {
                                 let mut nesting = 0;
                                 while let Some(Ok((tok, _))) = self.underlying.peek() {
+                                    #[cfg(rustpython_parser_verif)]
+                                    crate::verif::step();
                                     match tok {
                                         Tok::Newline => break,
                                         Tok::Equal if nesting == 0 => {
